@@ -112,7 +112,7 @@ def inject(model, site, rng):
         c.setdefault("kind_alias", {})[newname] = p
         exp.update(error="MissingParameters", where="cmd", attrs={"parameters": [p]}, also_ok=["NoSuchParameter"], phase="load")
     elif kind == "wrong-kind":
-        k = models.param_kinds()[c["cmd"]][p]
+        k = models.param_kinds(models.model_libs(model))[c["cmd"]][p]
         label, raw, py = [w for w in WRONG[k] if w[0] == variant][0]
         c.setdefault("raw_ast", {})[p] = copy.deepcopy(raw)
         c["args"][p] = py
@@ -166,7 +166,7 @@ def inject(model, site, rng):
             c["args"][p] = s
         exp.update(error="ResultNotFuzzy" if wants_fuzzy else "ResultIsFuzzy", where="arg", attrs={"result": s})
     elif kind == "bad-path":
-        c["args"][p] = "no_such_dir/missing.csv"
+        c["args"][p] = "no_such_dir/missing.csv" if model.get("libs") != "nc" else "no_such_dir/missing.nc"
         exp.update(error="PathDoesNotExist", where="arg", attrs={})
     else:
         return None
